@@ -18,7 +18,9 @@ private theorem spelling_shape {reg : Reg} : ∀ (ty : Ty) (j : JV) (l : Lit), A
   induction ty with
   | named n =>
     intro j l h
-    cases h <;> simp [Lit.isNull, JV.isNull]
+    cases h with
+    | custom _ hs => cases hs <;> simp [Lit.isNull, JV.isNull]
+    | _ => simp [Lit.isNull, JV.isNull]
   | list t ih =>
     intro j l h
     cases h with
@@ -138,13 +140,13 @@ private theorem fieldLoop_equiv {reg : Reg} {recL : Ty → Lit → R} {recJ : Ty
         simp [Except.toOption]
 
 /-- bodies of the two functions agree on a literal spelling (type not non-null) -/
-private theorem core_equiv {reg : Reg} {recL : Ty → Lit → R} {recJ : Ty → JV → R}
+private theorem core_equiv {reg : Reg} (hagree : CustomAgree reg) {recL : Ty → Lit → R} {recJ : Ty → JV → R}
     (hrec : ∀ ty j l, AstOfJson reg ty j l → (recL ty l).toOption = (recJ ty j).toOption)
     {t : Ty} {j : JV} {l : Lit} (h : AstOfJson reg t j l) (hnn : t.isNonNull = false) :
     (vfaCore reg recL t l).toOption = (coerceCore reg recJ t j).toOption := by
   have hadmI : ∀ k, admits .int (.int k) = true := fun k => by simp only [admits, kindName, litKind]; decide
   have hadmFI : ∀ k, admits .float (.int k) = true := fun k => by simp only [admits, kindName, litKind]; decide
-  have hadmFF : ∀ s c, admits .float (.float s c) = true := fun s c => by simp only [admits, kindName, litKind]; decide
+  have hadmFF : ∀ s, admits .float (.float s) = true := fun s => by simp only [admits, kindName, litKind]; decide
   have hadmS : ∀ s, admits .string (.str s) = true := fun s => by simp only [admits, kindName, litKind]; decide
   have hadmB : ∀ b, admits .boolean (.bool b) = true := fun b => by simp only [admits, kindName, litKind]; decide
   have hadmIS : ∀ s, admits .id (.str s) = true := fun s => by simp only [admits, kindName, litKind]; decide
@@ -159,8 +161,9 @@ private theorem core_equiv {reg : Reg} {recL : Ty → Lit → R} {recJ : Ty → 
   | boolean hk => exact congrArg _ (by simp [vfaCore, coerceCore, Lit.isNull, JV.isNull, hk, isScalarLit, parseLiteral, hadmB, parseBool, pyTruthy])
   | idStr hk => exact congrArg _ (by simp [vfaCore, coerceCore, Lit.isNull, JV.isNull, hk, isScalarLit, parseLiteral, hadmIS, parseId, pyStr])
   | idInt hk => exact congrArg _ (by simp [vfaCore, coerceCore, Lit.isNull, JV.isNull, hk, isScalarLit, parseLiteral, hadmII, parseId, pyStr])
-  | customStr hk => exact congrArg _ (by simp [vfaCore, coerceCore, Lit.isNull, JV.isNull, hk, isScalarLit, parseLiteral, pvOfJson])
-  | customBool hk => exact congrArg _ (by simp [vfaCore, coerceCore, Lit.isNull, JV.isNull, hk, isScalarLit, parseLiteral, pvOfJson])
+  | custom hk hs =>
+    have := hagree _ _ _ hk hs
+    cases hs <;> simpa [vfaCore, coerceCore, Lit.isNull, JV.isNull, hk, isScalarLit] using this
   | enum hk => exact congrArg _ (by simp [vfaCore, coerceCore, Lit.isNull, JV.isNull, hk])
   | list hL =>
     have hm := (mapE_equiv hrec _ _ hL).trans (mapEC_toOption _ _).symm
@@ -188,13 +191,14 @@ private theorem core_equiv {reg : Reg} {recL : Ty → Lit → R} {recJ : Ty → 
     intro h; subst h; rfl
 
 /-- **literal_variable_equiv.** For every registry, every type expression (any nesting, recursive input objects),
-    every JSON value `j` of the natural kind for the type and its literal spelling `l`, and every fuel:
+    every JSON value `j` of the natural kind for the type and its literal spelling `l`, and every fuel, relative to
+    custom scalars whose own two parsers agree (`CustomAgree`: the scalar author's obligation, nothing else is assumed):
     `value_from_ast(l, ty)` and `coerce_value(j, ty)` have the same outcome — the SAME value, or both raise
     (`toOption` forgets only which exception: `_coerce_input_object` / `_coerce_list_value` collect errors and go on,
     `value_from_ast` stops at the first). With `variable_sound` / `literal_sound` and the way
     `coerce_argument_values` stores either result under the argument's python name, a resolver cannot tell whether a
     value was written inline or sent through a variable of the same type. -/
-theorem literal_variable_equiv (reg : Reg) (vars : Option (List (String × PV))) :
+theorem literal_variable_equiv (reg : Reg) (hagree : CustomAgree reg) (vars : Option (List (String × PV))) :
     ∀ (fuel : Nat) (ty : Ty) (j : JV) (l : Lit), AstOfJson reg ty j l →
       (valueFromAst reg vars fuel ty l).toOption = (coerceValue reg fuel ty j).toOption := by
   intro fuel
@@ -213,19 +217,19 @@ theorem literal_variable_equiv (reg : Reg) (vars : Option (List (String × PV)))
     | false =>
       simp only [Bool.false_eq_true, if_false]
       cases ty with
-      | named n => exact core_equiv ih h rfl
-      | list t => exact core_equiv ih h rfl
+      | named n => exact core_equiv hagree ih h rfl
+      | list t => exact core_equiv hagree ih h rfl
       | nonNull t =>
         simp only [stripNN]
         cases h with
         | null => simp [Ty.isNonNull, JV.isNull] at hc
-        | nonNull hnn h' => exact core_equiv ih h' hnn
+        | nonNull hnn h' => exact core_equiv hagree ih h' hnn
 
 /-- in particular: whenever the variable route accepts, the literal route yields the identical value, and vice versa -/
-theorem literal_variable_same_value (reg : Reg) (vars : Option (List (String × PV))) (fuel : Nat) (ty : Ty) (j : JV) (l : Lit)
+theorem literal_variable_same_value (reg : Reg) (hagree : CustomAgree reg) (vars : Option (List (String × PV))) (fuel : Nat) (ty : Ty) (j : JV) (l : Lit)
     (h : AstOfJson reg ty j l) (pv : PV) :
     valueFromAst reg vars fuel ty l = .ok pv ↔ coerceValue reg fuel ty j = .ok pv := by
-  have := literal_variable_equiv reg vars fuel ty j l h
+  have := literal_variable_equiv reg hagree vars fuel ty j l h
   revert this
   cases valueFromAst reg vars fuel ty l <;> cases coerceValue reg fuel ty j <;> simp [Except.toOption]
   · intro h; subst h; exact Iff.rfl
